@@ -487,7 +487,11 @@ def run(ctx):
                            ('% if False:\n% else:\n<%namespace name="n">\n<%def name="q()">Q</%def>\n</%namespace>\\\n% endif\n${n.q()}', "Q", "silent-only.namespace"),
                            ("% if False:\n% elif True:\ny\n% endif\n", "y\n", "empty-then-elif"),
                            ("<%\n    return STOP_RENDERING\n%>never", "", "return"), ("a\n<% return STOP_RENDERING %>b", "a\n", "return-keeps-output"),
-                           ('<%def name="d()">in<% return STOP_RENDERING %>no</%def>${d()}out', "inout", "return-in-def")]:
+                           ('<%def name="d()">in<% return STOP_RENDERING %>no</%def>${d()}out', "inout", "return-in-def"),
+                           ('<%def name="d()">in<% return STOP_RENDERING %>no</%def>${capture(d)}out', "inout", "return-in-captured-def"),
+                           ('<%def name="a()" buffered="True">A<% return STOP_RENDERING %>B</%def>x${a()}y', "xAy", "return-in-buffered.def"),
+                           ('<%def name="a()" filter="trim">A<% return STOP_RENDERING %>B</%def>x${a()}y', "xAy", "return-in-buffered.filtered-def"),
+                           ('<%block filter="trim">A<% return STOP_RENDERING %>B</%block>z', "Az", "return-in-buffered.filtered-block")]:
         ctx.evaluations += 1
         try:
             res = Template(src).render()
